@@ -185,7 +185,7 @@ __CPROVER_assigns(TS, G.m, G.appends, G.t_queued, T.next, W0.next, WT.next)
 __CPROVER_ensures(TS_IDLE)
 __CPROVER_ensures(__CPROVER_return_value ==> (G.m.rel_kind == REL_APPENDED && G.appends == __CPROVER_old(G.appends) + 1 && G.t_queued)) /* accepted: appended at the tail exactly once */
 __CPROVER_ensures(__CPROVER_return_value ==> (G.m.acq_head == NULL ==> NOTIFIES > OLD_NOTIFIES)) /* a push into an empty queue wakes the sleeping worker */
-__CPROVER_ensures(!__CPROVER_return_value ==> (G.appends == __CPROVER_old(G.appends) && !G.t_queued && TS.mut_.acquired == __CPROVER_old(TS.mut_.acquired))) /* refused only because the lock was busy: nothing touched */
+__CPROVER_ensures(!__CPROVER_return_value ==> (G.appends == __CPROVER_old(G.appends) && !G.t_queued)) /* refused: the task is in no queue (the caller still owns it) */
 #ifdef VF_VERIFY_TS
 /*@BODY try_push*/
 #else
